@@ -430,6 +430,44 @@ func wellFormed(b []byte) (map[string]*centry, bool) {
 	return out, true
 }
 
+// typeViolation reports whether a JSON object document has an entry that is not an object, or whose
+// exact-case "secret" is present but not an object, or whose exact-case "Version" is not a number that
+// fits a 32-bit unsigned version, or whose exact-case "Value" is neither a base64 string nor null.
+// (Case variants, unknown fields, duplicate keys and the format of lastAccess stay grey.)
+func typeViolation(b []byte) bool {
+	var raw map[string]json.RawMessage
+	if json.Unmarshal(b, &raw) != nil || raw == nil {
+		return false
+	}
+	for _, rv := range raw {
+		var fields map[string]json.RawMessage
+		if json.Unmarshal(rv, &fields) != nil || fields == nil {
+			return true // entry is not an object (or is null)
+		}
+		sraw, ok := fields["secret"]
+		if !ok {
+			continue
+		}
+		var sf map[string]json.RawMessage
+		if json.Unmarshal(sraw, &sf) != nil || sf == nil {
+			return true
+		}
+		if v, ok := sf["Version"]; ok {
+			var n uint32
+			if json.Unmarshal(v, &n) != nil {
+				return true
+			}
+		}
+		if v, ok := sf["Value"]; ok {
+			var bs []byte
+			if json.Unmarshal(v, &bs) != nil {
+				return true
+			}
+		}
+	}
+	return false
+}
+
 func countTopLevelKeys(b []byte) int {
 	dec := json.NewDecoder(bytes.NewReader(b))
 	if tok, err := dec.Token(); err != nil || tok != json.Delim('{') {
@@ -556,6 +594,8 @@ func fuzzCase(r *evid.Run, idx int) {
 		class = "certainly-valid"
 	case !json.Valid(doc):
 		class = "certainly-invalid"
+	case typeViolation(doc):
+		class = "certainly-invalid" // a documented field holds a value of the wrong JSON type: not the documented shape
 	default:
 		if json.Unmarshal(doc, &top); top != nil {
 			if _, isObj := top.(map[string]any); !isObj {
